@@ -78,6 +78,7 @@ def run(check, prog):
     smatrix(check, prog, canon)
     bh488(check, prog, canon)
     yang(check, prog, canon)
+    qratio(check, prog)
     tolerance_slots(check, prog)
     cluster_handoff(check, prog)
     # "at every detector point and polarization": the lens theories place the
@@ -900,3 +901,77 @@ def cluster_handoff(check, prog):
                           slot, show(slots.get(slot, NONE))[:120],
                           '' if got is None else ' = %s-part of %s * %s' % (
                               got[0], got[1], c0.show(got[2]))))
+
+
+def qratio(check, prog, canon=None):
+    """H3-yang-Q: the ratio Q_n = [psi_n(z1)/zeta_n(z1)] / [psi_n(z2)/zeta_n(z2)] of
+    Yang (2003) eq. 23, derived independently of the source:
+      n = 0:  psi_0/zeta_0 (z) = (1 - exp(-2 i z)) / 2   (psi_0 = sin z, zeta_0 = -i e^{iz})
+      n > 0:  psi_n/psi_{n-1} = 1/(D1_n + n/z),  zeta_n/zeta_{n-1} = 1/(D3_n + n/z)
+    so Q_0 = (1 - e^{-2 i z1}) / (1 - e^{-2 i z2}) and
+       Q_n = Q_{n-1} (D3_n(z1) + n/z1)(D1_n(z2) + n/z2) / ((D1_n(z1) + n/z1)(D3_n(z2) + n/z2))."""
+    sf = TH + 'mie_f.mie_specfuncs.'
+    q = sf + 'Qratio'
+    fd = prog.func(q)
+    loc = prog.loc(q, fd)
+
+    def decide(t):
+        # the caller passes the logarithmic derivatives
+        if t[0] == 'cmp' and t[1] in ('==', 'is') and t[3] == NONE:
+            return False
+        return None
+    it = Interp(prog, max_depth=1, decide=decide, opaque=[sf + 'log_der_13'])
+    v = it.analyze(q).ret
+    ok = v[0] == 'loop'
+    if not ok:
+        check.bad('H3-yang-Q', 'Qratio', 'not an upward recursion: %s' % show(v)[:120], loc)
+        return
+    init, step, itr = v[3], v[4], v[5]
+    z1, z2 = [sym(a.arg) for a in fd.args.args[:2]]
+    a1, a2, b1, b2 = sym('A1'), sym('A2'), sym('B1'), sym('B2')
+
+    def parts(t):
+        # Re / Im of the two arguments as free real symbols; conversions dropped
+        if not t or not isinstance(t[0], str):
+            return tuple(parts(x) if isinstance(x, tuple) else x for x in t)
+        if t[0] == 'call' and t[1] in ('numpy.complex128', 'complex') and len(t[2]) == 1:
+            return parts(t[2][0])
+        if t[0] == 'call' and t[1] in ('numpy.real', 'numpy.imag') and len(t[2]) == 1:
+            inner = parts(t[2][0])
+            if inner in (z1, z2):
+                return {('numpy.real', z1): a1, ('numpy.real', z2): a2,
+                        ('numpy.imag', z1): b1, ('numpy.imag', z2): b2}[(t[1], inner)]
+        if t[0] == 'attr' and t[2] in ('real', 'imag') and parts(t[1]) in (z1, z2):
+            return {('real', z1): a1, ('real', z2): a2,
+                    ('imag', z1): b1, ('imag', z2): b2}[(t[2], parts(t[1]))]
+        return tuple(parts(x) if isinstance(x, tuple) else x for x in t)
+    c0 = Canon()
+    ok0 = init[0] == 'upd' and init[2] == 'item' and init[3] == num(0)
+    if ok0:
+        got = intern(parts(init[4]))
+        env = {'a1': a1, 'a2': a2, 'b1': b1, 'b2': b2}
+        want = expr_term(prog, '(1 - np.exp(-2j*a1 + 2*b1)) / (1 - np.exp(-2j*a2 + 2*b2))', env)
+        ok0 = c0.equal(got, want)
+    check.require(ok0, 'H3-yang-Q', 'Qratio start value',
+                  'Q_0 = (1 - exp(-2i z1)) / (1 - exp(-2i z2)) (Yang eq. 34)', loc,
+                  fail_detail='Q_0 = %s' % (c0.show(intern(parts(init[4])))[:240] if init[0] == 'upd'
+                                            else show(init)[:120]))
+    okr = itr[0] == 'call' and itr[1] == 'numpy.arange' and itr[2][0] == num(1) and \
+        step[0] == 'upd' and step[1][0] == 'phi' and step[2] == 'item'
+    if okr:
+        n = step[3]
+        d1, d2 = sym(fd.args.args[3].arg), sym(fd.args.args[4].arg)
+        env = {'Q': intern(('idx', step[1], ('bin', '-', n, num(1)))), 'n': n,
+               'z1': z1, 'z2': z2,
+               'D1z1': intern(('idx', ('idx', d1, num(0)), n)),
+               'D3z1': intern(('idx', ('idx', d1, num(1)), n)),
+               'D1z2': intern(('idx', ('idx', d2, num(0)), n)),
+               'D3z2': intern(('idx', ('idx', d2, num(1)), n))}
+        want = expr_term(prog, 'Q * (D3z1 + n/z1) * (D1z2 + n/z2) / '
+                         '((D1z1 + n/z1) * (D3z2 + n/z2))', env)
+        okr = n[0] == 'elem' and c0.equal(intern(parts(step[4])), want)
+    check.require(okr, 'H3-yang-Q', 'Qratio recursion',
+                  'Q_n = Q_{n-1} (D3_n(z1)+n/z1)(D1_n(z2)+n/z2) / ((D1_n(z1)+n/z1)'
+                  '(D3_n(z2)+n/z2)), n = 1..nstop (Yang eq. 33)', loc,
+                  fail_detail='step = %s' % c0.show(intern(parts(step[4])))[:240]
+                  if step[0] == 'upd' else show(step)[:120])
